@@ -10,16 +10,16 @@ open SpsdkVerif
 /-- an entry equals what a load from the data folder yields now -/
 def EntOK (env : Env) (e : Nat × Nat) : Prop := e.2 = env.loadCfg e.1
 
-/-- **Fingerprint soundness** of a cache object: IF it has the expected class and its stored fingerprint
-    equals the fingerprint of the current data files, THEN its entries are what a load yields now.
+/-- **Fingerprint soundness** of a cache object: IF its stored fingerprint equals the fingerprint of the
+    current data files, THEN its entries are what a load yields now — whatever its class.
     (This is the assumption under which SPSDK's cache is correct at all: (mtime,size) fingerprints
     detect every change of a data file.)  A *stale* object is one with a different fingerprint
     and arbitrary entries — it satisfies `Sound` vacuously. -/
 def Sound (env : Env) (v : Val) : Prop :=
-  v.ty = env.expectedTy → env.fpOf (keys v.ents) = v.fp → ∀ e ∈ v.ents, EntOK env e
+  env.fpOf (keys v.ents) = v.fp → ∀ e ∈ v.ents, EntOK env e
 
 /-- an object whose entries are right whatever its fingerprint says (what running processes write) -/
-def Good (env : Env) (v : Val) : Prop := v.ty = env.expectedTy → ∀ e ∈ v.ents, EntOK env e
+def Good (env : Env) (v : Val) : Prop := ∀ e ∈ v.ents, EntOK env e
 
 /-- exception classes that both the loader's and (if it reads at all) the writer's `try` catch -/
 def CaughtRW (G : Guards) (e : Exc) : Prop :=
@@ -40,7 +40,7 @@ def BytesGood (env : Env) (G : Guards) (b : Bytes) : Prop :=
 
 /-- a complete, valid, up-to-date cache file -/
 def Valid (env : Env) (b : Bytes) : Prop :=
-  ∃ v, env.unpickle b = .ok v ∧ v.ty = env.expectedTy ∧ (∀ e ∈ v.ents, EntOK env e) ∧ env.fpOf (keys v.ents) = v.fp
+  ∃ v, env.unpickle b = .ok v ∧ (∀ e ∈ v.ents, EntOK env e) ∧ env.fpOf (keys v.ents) = v.fp
 
 /-- What is assumed about `pickle` (measured by the harness on every run, see `caught_covers`):
     a dumped object loads back, and no strict prefix of a dump loads — it raises one of `measured`. -/
@@ -51,19 +51,37 @@ structure PickleOK (env : Env) (measured : List Exc) : Prop where
   /-- the empty file (the state a kill right after `open('wb')` leaves) -/
   empty_raises : ∃ e, env.unpickle [] = .raises e ∧ e ∈ measured
 
-/-- The lexical facts about the code (as extracted into `Guards`) that the proofs need. -/
+/-- The lexical facts about the code (as extracted into `Guards`) that the proofs need.  Deliberately NOT required
+    (the property holds without them): an `isinstance` check of the loaded / merged object (only: IF there is one, what
+    it raises is caught), the lock around the loader's read, the exists-guards. -/
 def wfGuards (G : Guards) : Bool :=
-  -- loader: whatever can go wrong while using the cache ends in the handler
-  Exc.caughtBy G.l.caught .FileNotFoundError &&
-  G.l.typeChecked && G.l.typeCheckInTry && Exc.caughtBy G.l.caught G.l.typeExc &&
+  -- loader: whatever can go wrong while using the cache (a vanished file, an I/O error, a lock time-out) ends in the handler
+  ioExcs.all (Exc.caughtBy G.l.caught) &&
+  (!G.l.typeChecked || (G.l.typeCheckInTry && Exc.caughtBy G.l.caught G.l.typeExc)) &&
+  -- a cached object is used only after the fingerprint comparison, and never after a failed one
   G.l.fpChecked && G.l.staleClearsLoaded && G.l.handlerClearsLoaded &&
   (!G.l.removeStale || G.l.removeStaleInTry) &&
   (!G.l.handlerRemoves || Exc.caughtBy G.l.handlerRemoveTolerates .FileNotFoundError) &&
-  -- writer: mutual exclusion, nothing escapes; a merging writer needs stale files to be removed by the loader
-  G.w.lockWrite && G.w.allInTry &&
+  -- writer: mutual exclusion of in-place writers; an I/O error of the store (read-only / full folder) is not fatal
+  G.w.lockWrite && G.w.allInTry && ioExcs.all (Exc.caughtBy G.w.caught) &&
+  -- a writer that merges the file it finds WITHOUT validating it needs every loader exit that does not trust the
+  -- file to remove it (stale: remove; exception: the handler removes)
   (!G.w.mergesExisting ||
-    (G.w.mergeTypeChecked && Exc.caughtBy G.w.caught G.w.mergeTypeExc &&
-     Exc.caughtBy G.w.caught .FileNotFoundError && G.l.removeStale))
+    ((!G.w.mergeTypeChecked || Exc.caughtBy G.w.caught G.w.mergeTypeExc) && G.l.removeStale && G.l.handlerRemoves))
+
+/-- For `never_fatal`: the guards catch EVERY exception class below `Exception` (in fact: `except Exception`),
+    at the loader, the writer and around the handler's `remove`; every raise site is inside its `try`. -/
+def CatchAll (G : Guards) : Prop :=
+  (∀ e, Exc.isSub e .Exception = true → Exc.caughtBy G.l.caught e = true ∧ Exc.caughtBy G.w.caught e = true) ∧
+  (G.l.typeChecked = true → G.l.typeCheckInTry = true) ∧
+  (G.l.removeStale = true → G.l.removeStaleInTry = true) ∧
+  (G.l.handlerRemoves = true → Exc.caughtBy G.l.handlerRemoveTolerates .FileNotFoundError = true) ∧
+  G.w.allInTry = true ∧
+  Exc.isSub G.l.typeExc .Exception = true ∧ Exc.isSub G.w.mergeTypeExc .Exception = true
+
+/-- `unpickle` raises only subclasses of `Exception` (no `KeyboardInterrupt`/`SystemExit`), on ANY bytes -/
+def RaisesOnlyExceptions (env : Env) : Prop :=
+  ∀ b e, env.unpickle b = .raises e → Exc.isSub e .Exception = true
 
 /-- every measured exception class is caught wherever the file is unpickled -/
 def coversMeasured (G : Guards) (measured : List Exc) : Bool :=
